@@ -22,7 +22,7 @@ RULE = ("broadband AP contents (random walk + white noise + slow oscillations, n
 ASSUMPTIONS = ["reference low-pass = the converter's own published design (2nd order Butterworth, Wn=0.2 re. AP Nyquist) applied forward-backward to "
                "the WHOLE trace with scipy.signal.sosfiltfilt", "'away from the two file edges' = 50 LF samples (600 AP samples) at either end",
                "1 LSB tolerance: bound < 1 + 1e-3 to absorb the float32 calibration round trip"]
-REQUIRED = {"lf_files_compared": 12, "reruns_same_object": 3, "window_pairs_compared": 6, "sync_columns_compared": 12, "lf_meta_checked": 12, "reference_compared": 12, "int16_wide_contents": 2, "long_cbin_cases": 1, "calibrated_rate_headers": 1, "saved_channel_subsets": 1}
+REQUIRED = {"lf_files_compared": 12, "reruns_same_object": 3, "window_pairs_compared": 6, "sync_columns_compared": 12, "lf_meta_checked": 12, "reference_compared": 12, "int16_wide_contents": 2, "long_cbin_cases": 1, "calibrated_rate_headers": 1, "saved_channel_subsets": 1, "four_digit_rows": 1}
 CASE_TIMEOUT = 200.0
 MAX_PROCS = 12
 
@@ -136,6 +136,14 @@ def run_case(case):
             sites = G.draw_sites(rng, "NP2.1", nsub, str(rng.choice(["dense", "random"])))
             mode = f"np21-{nsub}-saved"
             res.count("saved_channel_subsets")
+    xmeta = None
+    if kind == "NP2.1" and ci % 6 == 4:
+        # the long single-shank prototype (probe type 1030, 2208 rows per the map header) recorded from a bank straddling row 1000: four-digit row numbers
+        r0 = int(rng.integers(880, 960))
+        sites = np.c_[np.zeros(384, int), np.arange(384) % 2, r0 + np.arange(384) // 2]
+        xmeta = {"imDatPrb_type": 1030}
+        mode = f"np21-prototype-rows-{r0}-{r0 + 191}"
+        res.count("four_digit_rows")
     wide = rng.random() < 0.35
     raw = broadband(rng, ns, gain[1], wide=wide)
     if len(sites) < 384:
@@ -157,7 +165,7 @@ def run_case(case):
     outs = {}
     for w in wsel:
         root = d / f"w{w}"
-        b, rec = np2.build(rng, root, kind=kind, ns=ns, gain=gain, sites=sites, raw=raw, fs=fs_hdr)
+        b, rec = np2.build(rng, root, kind=kind, ns=ns, gain=gain, sites=sites, raw=raw, fs=fs_hdr, extra_meta=xmeta)
         label = f"{label0} window={w}"
         if cbin_orig:
             import mtscomp
